@@ -238,6 +238,14 @@ func mdExtras(g *genNet, r *rand.Rand, o genOpts, variant int) {
 		s.SetUnit(tieUnits[0])
 		must(m2.InsertSignal(s, 0))
 		g.sigs = append(g.sigs, s)
+		// a unit without symbol is a unit all the same: referenced, hence listed
+		blank := acmelib.NewSignalUnit("blank_unit", acmelib.SignalUnitKindCustom, "")
+		g.units = append(g.units, blank)
+		bs, err := acmelib.NewStandardSignal(sprintf("blank_sig_%d", mid), tieTypes[0])
+		must(err)
+		bs.SetUnit(blank)
+		must(m2.InsertSignal(bs, 16))
+		g.sigs = append(g.sigs, bs)
 		attach(m2)
 	}
 
